@@ -97,6 +97,12 @@ pub fn prop(c: &Case, log: &mut CaseLog) -> Verdict {
     }
     log.nontrivial = must.len() >= 2;
     log.label_if(must.len() >= 3, "occurrences>=3");
+    {
+        // an occurrence of the renamed symbol inside a test
+        let tests: Vec<(usize, usize)> = text.match_indices(".test ").map(|(i, _)| (i, text[i..].find("\n}").map(|e| i + e).unwrap_or(text.len()))).collect();
+        let in_test = p.bindings.uses.iter().any(|u| u.comps.iter().any(|((a, _), def)| *def == Some(did) && tests.iter().any(|(x, y)| a > x && a < y)));
+        log.label_if(in_test, "occurrence-in-test");
+    }
     let new_name = "zzrenamed9";
     let old_name = d.name.clone();
     let t = Duration::from_secs(20);
@@ -172,8 +178,22 @@ pub fn prop(c: &Case, log: &mut CaseLog) -> Verdict {
         };
         let after = summary(&renamed);
         if before != after {
+            // The edit is exactly the set of occurrences that the binding model expects (checked above), so the renamed
+            // text is an alpha-conversion of the original one. When the name is also defined in another scope and one of
+            // the equally named definitions is referred to before it is defined, the first pass of the assembler binds
+            // that reference by name to whatever is defined so far, which the rename changes: where an instruction
+            // straddles the zero page boundary the passes then settle on another (equally consistent) layout.
+            let same_name: Vec<usize> = p.bindings.defs.iter().filter(|x| x.name == old_name && x.range.is_some()).map(|x| x.id).collect();
+            let forward_to_shadow = same_name.len() >= 2
+                && p.bindings.uses.iter().any(|u| {
+                    u.comps.iter().any(|((a, _), def)| match def {
+                        Some(x) if same_name.contains(x) => p.bindings.defs[*x].range.map(|(da, _)| *a < da).unwrap_or(false),
+                        _ => false,
+                    })
+                });
+            let layout_tag = if forward_to_shadow { "|forward-reference-to-a-shadowing-definition" } else { "" };
             return Ok(Verdict::fail(
-                format!("renamed-project-builds-differently{}", kind_tag),
+                format!("renamed-project-builds-differently{}{}", kind_tag, layout_tag),
                 describe(&format!("renamed text:\n{}\nbefore: {:?}\nafter: {:?}", renamed, before.as_ref().map(|b| &b.1), after.as_ref().map(|b| &b.1))),
             ));
         }
